@@ -34,9 +34,19 @@ func init() {
 							items = append(items, Item{ID: fmt.Sprintf("objrefuse:%s/n=%d/bad=%d", p.Name, nb[0], nb[1]), Run: func(c *Ctx) { c18objRefuse(c, p, nb[0], nb[1]) }})
 						}
 					}
-					// element types do not matter for the count: one element type per family
-					if p.Family == "WriteBasicTypeList" && p.TArgs[1] != "uint16" {
-						continue
+					// the count guard is shared, but element-type-specific fast paths may bypass it (seeded C18-f: a
+					// []byte path): every element type behind 8-bit counts; uint8 and uint16 (thorough: also int8,
+					// float64) behind wider counts
+					if p.Family == "WriteBasicTypeList" && typeWidth(p.TArgs[0]) > 8 {
+						switch p.TArgs[1] {
+						case "uint8", "uint16":
+						case "int8", "float64":
+							if !c.thorough() {
+								continue
+							}
+						default:
+							continue
+						}
 					}
 					if p.Family == "WriteStringList" && p.TArgs[1] != "uint8" {
 						continue
